@@ -369,7 +369,9 @@ fn hostile_histories(rep: &mut Report, uni: &[KeyCode]) {
             let mut rng = Rng::fork(seed, 0xC04_0000 + h);
             let li = (h % 10) as usize;
             let variant = (h / 10) % 3; // 0: Keyboard<L,Set2>, 1: Keyboard<L,Set1>, 2: bare EventDecoder<Dbg<L>>
-            let ops: Vec<Op> = (0..hist_len).map(|_| random_op(&mut rng, &uni2, variant == 2)).collect();
+            // the first sixteen histories are long ones (anything that only shows after many events)
+            let this_len = if h < 16 { hist_len * 50 } else { hist_len };
+            let ops: Vec<Op> = (0..this_len).map(|_| random_op(&mut rng, &uni2, variant == 2)).collect();
             let r = guarded(|| {
                 let mut model = ModModel::new();
                 let mut mode = HandleControl::Ignore;
@@ -427,7 +429,7 @@ fn hostile_histories(rep: &mut Report, uni: &[KeyCode]) {
                 (bad, model.bits)
             });
             hists += 1;
-            events += hist_len;
+            events += this_len;
             match r {
                 Ok((Some((i, pre, got)), _)) => {
                     // recompute the model state before op i for the signature
@@ -729,7 +731,8 @@ pub fn run_c14(rep: &mut Report) {
         let mut h = t as u64;
         while h < n_hist {
             let mut rng = Rng::fork(seed, 0xC14_0000 + h);
-            let ops: Vec<Op> = (0..hist_len).map(|_| random_op(&mut rng, &uni2, true)).collect();
+            let this_len = if h < 8 { hist_len * 20 } else { hist_len };
+            let ops: Vec<Op> = (0..this_len).map(|_| random_op(&mut rng, &uni2, true)).collect();
             let r = guarded(|| {
                 let mut sim = Sim::new();
                 for (i, op) in ops.iter().enumerate() {
@@ -741,7 +744,7 @@ pub fn run_c14(rep: &mut Report) {
                 }
                 (None, sim.instance)
             });
-            events += hist_len;
+            events += this_len;
             match r {
                 Ok((None, inst)) => layouts += inst as u64,
                 Ok((Some((i, pre, mode, (want, got))), _)) => {
